@@ -123,7 +123,7 @@ NESTED_VARIANTS = (
 )
 AMBIGUOUS_FOLDS = {"fold-at-encoded-word", "fold-in-white-space-run"}      # never in a clean message (G.wire_features)
 RISKY = ("mbox-attachment", "nested-rfc822", "fold-at-encoded-word", "date-second-60", "plain-folded-subject", "message-id-on-continuation-line",
-         "nameless-attachment")
+         "nameless-attachment", "attachment-name-over-255-bytes")
 
 
 # ============================================================================================= worker side
@@ -194,14 +194,22 @@ def _observe(r, truth_atts, blobs) -> dict:
             if not is_supported_mime_type(t["ctype"]):
                 direct.append({"skipped": "unsupported-mime"})
                 continue
-            key = (t["sha"], t["filename"].rsplit(".", 1)[-1].lower() if "." in t["filename"] else t["ctype"])
+            key = (t["sha"], t["filename"], t["ctype"])          # (the name is part of the input: extractors look at the path they are given)
             if key not in _direct_cache:
                 try:
                     try:
                         ex = get_extractor(t["filename"])      # README: extension first ...
                     except Exception:  # noqa: BLE001 - ... no usable extension / no name: the file "on its own" is named by its declared type
                         ex = get_extractor("attachment." + MIME_TYPE_MAPPING[t["ctype"]])
-                    res = [_canon(x) for x in ex(io.BytesIO(core.unb64(blobs[t["sha"]])), t["filename"] or None)]
+                    try:
+                        res = [_canon(x) for x in ex(io.BytesIO(core.unb64(blobs[t["sha"]])), t["filename"] or None)]
+                    except Exception as e:  # noqa: BLE001
+                        if not isinstance(e.__cause__, OSError) and not isinstance(e, OSError):
+                            raise
+                        # the name is one no file system stores (longer than NAME_MAX): the attached file "on its own" is the
+                        # same bytes under a name of the same extension that can exist
+                        short = "attachment" + (("." + t["filename"].rsplit(".", 1)[-1]) if "." in t["filename"] else "")
+                        res = [_canon(x) for x in ex(io.BytesIO(core.unb64(blobs[t["sha"]])), short)]
                     _direct_cache[key] = {"results": res}
                 except Exception as e:  # noqa: BLE001
                     _direct_cache[key] = {"error": _exc(e)}
@@ -523,6 +531,11 @@ def build_case(rng, tok, fx, n_msgs: int, risky: str | None, cid: int, stats=Non
 
     for i in range(n_msgs):
         specs.append(fresh(allow))
+    if specs and not risky and rng.random() < 0.12:
+        # the same message filed twice (per-label exports, a user's copy): two results, each in its place
+        dup = copy.deepcopy(rng.choice(specs))
+        dup["features"] = sorted(set(dup["features"]) | {"mbox:filed-twice"})
+        specs.insert(rng.randrange(len(specs) + 1), dup)
     if risky and specs:
         at = rng.randrange(len(specs))
         variant = NESTED_VARIANTS[cid % len(NESTED_VARIANTS)] if risky == "nested-rfc822" else None
@@ -563,6 +576,8 @@ def build_case(rng, tok, fx, n_msgs: int, risky: str | None, cid: int, stats=Non
         s["auto_risky"] = [f for f in wf if f in RISKY and f != "fold-at-encoded-word"]   # that one is planned, never incidental
         if any(a["disp"] == "attachment" and not a["filename"] for a in s["atts"]):
             s["auto_risky"].append("nameless-attachment")
+        if any(a["disp"] == "attachment" and len(a["filename"].encode("utf-8")) > 255 for a in s["atts"]):
+            s["auto_risky"].append("attachment-name-over-255-bytes")
         s["features"] = sorted(set(s["features"]) | {"risky:" + f for f in s["auto_risky"]})
     eol = rng.choice([b"\n", b"\n", b"\r\n"])
     mb = {"eol": "CRLF" if eol == b"\r\n" else "LF", "blank_lines": rng.choice([1, 1, 1, 2]), "final_blank": rng.random() < 0.8,
@@ -660,6 +675,8 @@ def twin_of(spec: dict):
         for i, a in enumerate(t["atts"]):
             if a["disp"] == "attachment" and not a["filename"]:
                 a["filename"] = f"named-{i}." + {"enc": "bin"}.get(a["kind"], a["kind"])     # the same part with a file name
+            elif a["disp"] == "attachment" and len(a["filename"].encode("utf-8")) > 255:
+                a["filename"] = f"short-{i}" + (("." + a["filename"].rsplit(".", 1)[-1]) if "." in a["filename"] else "")
         t["features"] = sorted(f for f in t["features"] if f[6:] not in spec["auto_risky"] or not f.startswith("risky:"))
         t["auto_risky"] = []
     if t is None and spec["atts"]:
@@ -680,6 +697,7 @@ KNOWN_SYMPTOMS = {
     "plain-folded-subject": {("eml", "subject", "fold-line-break-kept")},
     "message-id-on-continuation-line": {("mbox", "message-id", "outer-white-space-kept")},
     "nameless-attachment": {("eml", "attachment", "filename-invented")},
+    "attachment-name-over-255-bytes": {(c, "supported-attachments", y) for c in ("eml", "mbox") for y in ("fewer-than-direct-extraction", "other-than-direct-extraction")},
 }
 
 
@@ -760,6 +778,9 @@ def main(run, only_cases=None):
     run.require("messages_with_rfc2047_content_type_name_only", c.get("messages_with_name_rfc2047_name_attachment_names", 0), run.n(40, 600))
     run.require("messages_with_attachments_below_another_container", c.get("messages_with_attachments_below_another_container", 0), run.n(60, 900))
     run.require("container_kinds_seen", len([k for k in c if k.startswith("container_")]), 5)
+    run.require("messages_without_message_id", c.get("messages_without_message_id", 0), run.n(60, 900))
+    run.require("mailboxes_with_two_messages_without_message_id", c.get("mailboxes_with_two_messages_without_message_id", 0), run.n(8, 100))
+    run.require("messages_filed_twice_in_one_mailbox", c.get("messages_filed_twice_in_one_mailbox", 0), run.n(15, 250))
     run.require("nested_message_variants_seen", len([k for k in c if k.startswith("nested_variant_")]), len(NESTED_VARIANTS))
     run.require("attachments_with_other_type_than_their_name_says", c.get("attachments_with_other_type_than_their_name_says", 0), run.n(100, 1500))
     run.require("type_name_mismatch_kinds_seen", len([k for k in c if k.startswith("mismatch_")]), len(G.MISMATCHED))
@@ -792,6 +813,8 @@ def judge_case(run, case, m, obs):
     run.count("mailbox_eol_" + case["mbox_opts"]["eol"])
     run.count("escaped_from_lines_in_mailboxes", m["escaped"])
     run.count("mailbox_escape_" + case["mbox_opts"].get("escape", "mboxrd"))
+    if sum(1 for s in specs if not s["message_id"]) >= 2:
+        run.count("mailboxes_with_two_messages_without_message_id")
     run.count("unescaped_non_separator_from_lines_in_mailboxes", m.get("raw_from", 0))
     run.count("unescaped_from_lines_with_a_year_inside", m.get("year_inside", 0))
     run.count("senders_own_quoted_from_lines_stored_as_they_are", m.get("own_quote", 0))
@@ -933,6 +956,10 @@ def _count_message(run, spec, truth, r):
         if f.startswith("att:mismatch:"):
             run.count("attachments_with_other_type_than_their_name_says")
             run.count("mismatch_" + f[13:])
+        elif f == "mid:absent":
+            run.count("messages_without_message_id")
+        elif f == "mbox:filed-twice":
+            run.count("messages_filed_twice_in_one_mailbox")
         elif f.startswith("struct:container:"):
             run.count("messages_with_attachments_below_another_container")
             run.count("container_" + f[17:])
